@@ -28,7 +28,10 @@ TRUSTED_BASE = BASE_TRUSTED + [
 RULE = ('kernels: index pairs in [1,4], aoi in [0,pi/2) incl. total internal reflection, both reflect flags, angles/retardances '
         'in [-2pi,2pi], unit and non-unit normals; model: random unit k0,k1 incl. parallel/antiparallel/axial/degenerate, '
         'random complex P and J, six named states and random (Ex,Ey,phase); traces: generated lenses (1-5 surfaces, '
-        'conics, mirrors, tilted, Fresnel-coated, index-matched; plus layouts whose first bending surface is a mirror: fold / concave mirror first, '
+        'conics, mirrors, tilted, Fresnel-coated, index-matched, built directly / with hand-built Surface objects / in a reused Optic / through '
+        'to_dict-from_dict; lenses whose media are ONE shared material object per medium (dummy / stop / image surfaces with the same object on '
+        'both sides); lenses with physical apertures that clip part of the bundle (polarized vs unpolarized on the same rays); a seed-independent '
+        'corpus with one case per class; plus layouts whose first bending surface is a mirror: fold / concave mirror first, '
         'mirror then Fresnel plate / lens, oblique and skew fields) recorded per surface and compared with an independent reference '
         '(launch basis from the direction copied at launch, own s-p-k frames, textbook Fresnel) for H, V, +-45, RCP, LCP, the stated '
         'random state and unpolarized light; non-trivial = finite ray with >= 1 surface')
@@ -185,9 +188,13 @@ def classify(t):
     cause_t = 'tilted-frame' if (chain_broken and t['tilted']) else cause
     base = {'call': 'PolarizedRays.update', 'cause': cause, 'lens': t['lens'], 'ray': t['ray'], 'coated': t['coated'],
             'tilted': t['tilted'], 'layout': t.get('layout'), 'raw_state': t['raw'], 'violates_property': True}
-    if not t['coated']:
+    # a ray stopped by a physical aperture: what its intensity should be is property C16's business; here only the
+    # clauses that do not depend on it are checked (transversality, launch field, unpolarized = mean of orthogonal states)
+    clipped = bool(t.get('clipped'))
+    if not t['coated'] and not clipped:
         if not abs(t['ipol'] - 1.0) <= INT_TOL:
             out.append(dict(base, clause='uncoated-intensity', observed=t['ipol'], expected=1.0))
+    if not t['coated']:
         if not t['Edotk'] <= INT_TOL:
             # a near-parallel frame also destroys transversality; a broken chain alone (tilt) only does the latter
             out.append(dict(base, cause=cause_t, clause='field-transverse', observed=t['Edotk'], expected=0.0))
@@ -199,7 +206,7 @@ def classify(t):
     if t.get('ref_launch_field_err') is not None and not t['ref_launch_field_err'] <= INT_TOL:
         out.append(dict(base, cause='unknown', clause='launch-field', observed=t['ref_launch_field_err'], expected=0.0,
                         launch_requested=t['klaunch'], launch_stored_on_rays=t['klaunch_stored'], layout=t.get('layout')))
-    if t.get('ref_int_implP'):
+    if t.get('ref_int_implP') and not clipped:
         for nm, v in t['ref_int_implP'].items():
             ob = t['impl_int'][nm]
             ex = v * (t['i0'] if nm == 'unpolarized' else 1.0)
@@ -207,7 +214,7 @@ def classify(t):
                 out.append(dict(base, cause='unknown', clause='stated-state-intensity', state=nm, observed=ob, expected=ex,
                                 layout=t.get('layout'), Hx=t.get('Hx'), Hy=t.get('Hy')))
                 break
-    if t.get('ref_int') and not ill:
+    if t.get('ref_int') and not ill and not clipped:
         for nm, v in t['ref_int'].items():
             ob = t['impl_int'][nm]
             ex = v * (t['i0'] if nm == 'unpolarized' else 1.0)
@@ -290,7 +297,8 @@ def trace_witnesses(traces):
 def system_checks(ctx):
     nu = ctx.n(24, 160)
     data = impl({'seed': ctx.seed, 'what': ['update', 'field', 'traces', 'oracles'], 'n_unit': nu,
-                 'n_lens': ctx.n(14, 120), 'n_mirror': ctx.n(8, 48), 'n_element': ctx.n(6, 36), 'n_oracle': ctx.n(120, 1500)})
+                 'n_lens': ctx.n(14, 120), 'n_mirror': ctx.n(8, 48), 'n_element': ctx.n(6, 36), 'n_shared': ctx.n(3, 24), 'n_aperture': ctx.n(3, 24),
+                 'n_oracle': ctx.n(120, 1500)})
     tol = fh(1e-11)
 
     # ---- PolarizedRays.update against pol_update ----
@@ -370,6 +378,10 @@ def system_checks(ctx):
         hist['tilted'] += 1 if t['tilted'] else 0
         lay = 'layout:' + t.get('layout', 'generic')
         hist[lay] = hist.get(lay, 0) + 1
+        for key in ('route:' + t.get('route', 'direct'), 'stopped by a physical aperture' if t.get('clipped') else None,
+                    'fixed corpus' if t.get('corpus') else None):
+            if key:
+                hist[key] = hist.get(key, 0) + 1
         if t.get('ref_int'):
             hist['independent reference compared'] = hist.get('independent reference compared', 0) + 1
         if t.get('matched'):
@@ -402,7 +414,8 @@ def system_checks(ctx):
     cplx = sum(1 for t in traces if t.get('complex_P', 0) > 1e-6)
     yield {'name': 'oracle: recorded traces against the independent reference (transversality, stated-state and Fresnel energy, '
                    'unpolarized = mean of orthogonal pairs)', 'n': len(traces), 'nontrivial': sum(1 for t in traces if t['finite']),
-           'histogram': dict({k: v for k, v in hist.items() if k.startswith('layout:')}, **{'complex accumulated matrix': cplx}),
+           'histogram': dict({k: v for k, v in hist.items() if k.startswith(('layout:', 'route:', 'stopped', 'fixed'))},
+                             **{'complex accumulated matrix': cplx}),
            'samples': [], 'disagreements': trace_witnesses(traces)}
 
     # ---- the property as an oracle on the Jones classes ----
@@ -428,7 +441,8 @@ def system_checks(ctx):
 def search(ctx, broken, disagreements):
     """the property stated directly on the implementation: Jones-class oracles + recorded traces, larger sweep"""
     data = impl({'seed': ctx.seed + 77, 'what': ['update', 'field', 'traces', 'oracles'], 'n_unit': ctx.n(48, 320),
-                 'n_lens': ctx.n(30, 300), 'n_mirror': ctx.n(16, 96), 'n_element': ctx.n(12, 72), 'n_oracle': ctx.n(400, 4000)})
+                 'n_lens': ctx.n(30, 300), 'n_mirror': ctx.n(16, 96), 'n_element': ctx.n(12, 72), 'n_shared': ctx.n(6, 48), 'n_aperture': ctx.n(6, 48),
+                 'n_oracle': ctx.n(400, 4000)})
     wit = []
     seen = set()
     for f in data['oracles']['fails']:
